@@ -1465,6 +1465,23 @@ class DynGraph(nx.Graph):
         # @todo: implement (page 8, Latapy)
         pass
 
+    def clear(self):
+        """Remove all nodes and interactions from the graph.
+
+        This also removes the name, all graph, node, and interaction attributes
+        together with the interaction stream and the snapshot index.
+        """
+        super(self.__class__, self).clear()
+        self.time_to_edge.clear()
+        self.snapshots.clear()
+
+    def clear_edges(self):
+        """Remove all interactions from the graph without altering nodes
+        (the interaction stream and the snapshot index are emptied as well)."""
+        super(self.__class__, self).clear_edges()
+        self.time_to_edge.clear()
+        self.snapshots.clear()
+
     @not_implemented()
     def remove_edge(self, u, v):
         pass
